@@ -100,7 +100,9 @@ impl Runner for BashRunner {
         let shell = self.shell.to_owned();
 
         // render the bash script
-        let state_directory_str = self.state_directory.to_string_lossy();
+        // quoted for the shell: the path may contain `$`, backticks, quotes or blanks
+        let state_directory_str =
+            shell_escape::unix::escape(self.state_directory.to_string_lossy()).to_string();
         let expression = BASH_TEMPLATE
             .replace("{state_directory}", &state_directory_str)
             .replace("{name}", name)
